@@ -139,7 +139,8 @@ CLAIMED = {
                   "operator (deep embedding of constant-coefficient operators; advection, full-matrix diffusion, both dispersion / hyper-diffusion variants, generic list; D<=3); order 0 multiplies "
                   "mode k by exp(dt*lambda_k) (translated from the source); n steps = one step with n*dt and -dt undoes dt for every state, dt, n; the wave stepper's diagonalisation is the exact "
                   "oscillator solution incl. the mean mode. The per-mode symbols of ALL 25 stepper classes and of the two operator helpers are re-translated from the source on every run "
-                  "(harness/translate/linops.py, fail-closed, closed over the package) and proved equal to the symbol model for all coefficients, flags and dimensions; symbol and wave models are "
+                  "(harness/translate/linops.py, fail-closed, closed over the package) and proved equal to the symbol model for all coefficients, flags and dimensions; Wave.step_fourier is re-translated as a whole "
+                  "for one mode (harness/translate/wave.py) and equals the wave model; symbol and wave models are "
                   "also compared with the real code at every stored mode (exact rationals).",
              note="The symbol calculus rule d/dx e^{ikx} = ik e^{ikx} and 'stored mode k carries e^{i kappa_k x}' (C04) are used, not re-proved here; jnp.exp trusted; analytic oracle on the real code "
                   "for all modes below Nyquist on small grids, superpositions, dt up to 1e3, negative dt.",
